@@ -43,7 +43,8 @@ int   nondet_v_int(void);
 int  v_nop(void)        { return 0; }
 void v_comsgFatal(void) { __CPROVER_assume(0); }	/* prints, exits with EXIT_FAILURE: not a return of main */
 void v_bug(void)        { __CPROVER_assume(0); }	/* aborts: not a return of main */
-void _do_assert(char *s, char *f, int l) { __CPROVER_assume(0); }
+int nondet_v_assertions_on(void);
+void _do_assert(char *s, char *f, int l) { if (nondet_v_assertions_on()) __CPROVER_assume(0); }	/* assertions are off unless -Wcheck */
 
 /* ---- environment of compFilesLoop (cmdline.c, emit.c, file.c ...): no (Error) line is printed by
  *      any of these other than through comsgFatal (reading emit.c/ccomp.c: comsgFatal only) -------- */
